@@ -709,7 +709,12 @@ mod unstable {
                                     if let Formula::AtomicFormula(AtomicFormula::Comparison(c2)) =
                                         ct2
                                     {
-                                        if equality_comparison(c2) && i != j {
+                                        // Two copies of one equation are not a transitive pair: dropping
+                                        // "the other one" would drop both (harmless only for T = T)
+                                        if equality_comparison(c2)
+                                            && i != j
+                                            && (c1 != c2 || c1.term == c1.guards[0].term)
+                                        {
                                             if let Some((keep_var, drop_var, drop_term)) =
                                                 transitive_equality(
                                                     c1.clone(),
